@@ -12,6 +12,7 @@ import (
 func (vc *VC) localEnv(st *State, b *ssa.BasicBlock, idx int) *Env {
 	env := vc.baseEnv(st, vc.entry)
 	env.local = func(name string) (SpecVal, bool) { return vc.lookupLocal(name, b, idx, st, nil) }
+	env.blk = b
 	return env
 }
 
@@ -94,8 +95,8 @@ func (vc *VC) lookupLocal(name string, b *ssa.BasicBlock, idx int, st *State, ph
 func (vc *VC) loopModifies(li *loopInfo) (heaps map[string]bool, ghosts map[string]bool, all bool, allocs bool) {
 	heaps, ghosts = map[string]bool{}, map[string]bool{}
 	addType := func(t types.Type) {
-		for _, lf := range leavesOf(t) {
-			heaps[vc.enc.HeapFor(lf.t)] = true
+		for _, lf := range vc.enc.Leaves(t) {
+			heaps[lf.heap] = true
 		}
 	}
 	var idxs []int
@@ -107,7 +108,14 @@ func (vc *VC) loopModifies(li *loopInfo) (heaps map[string]bool, ghosts map[stri
 		for _, in := range vc.fn.Blocks[bi].Instrs {
 			switch x := in.(type) {
 			case *ssa.Store:
-				addType(x.Addr.Type().Underlying().(*types.Pointer).Elem())
+				et := x.Addr.Type().Underlying().(*types.Pointer).Elem()
+				if _, isStruct := et.Underlying().(*types.Struct); isStruct {
+					addType(et)
+				} else {
+					for _, a := range vc.ptrHeaps(x.Addr, et) {
+						heaps[a.heap] = true
+					}
+				}
 			case *ssa.Alloc, *ssa.MakeSlice, *ssa.MakeMap, *ssa.MakeClosure:
 				allocs = true
 			case *ssa.Convert:
